@@ -775,6 +775,28 @@ def check_generic_view(prog, rep):
             rep.ob("C19.9", key, ok,
                    "coap-message %s options() does not start a fresh walk over the whole option map (iterator from the first entry, no pending value list)" % ver, site,
                    sample={"rule": "C19.9", "method": key, "paths": len(res)})
+    # mutate_options hands every stored value to the callback: only element-keeping adapters on the way
+    for b in sorted(prog.bodies.values(), key=lambda b_: b_["id"]):
+        tr = b.get("impl_trait") or ""
+        if b.get("promoted") or b.get("kind") != "AssocFn" or not tr.startswith("coap_message::") or b.get("name") != "mutate_options":
+            continue
+        if prog.types[b["impl_self"]]["s"] != "packet::Packet":
+            continue
+        fam = [x for x in prog.bodies.values() if not x.get("promoted") and (x["id"] == b["id"] or x["path"].startswith(b["path"] + "::{closure"))]
+        dropping = []
+        for x in fam:
+            for bb in x["blocks"]:
+                t = bb["term"]
+                if t["k"] == "call" and not bb.get("cleanup"):
+                    pth = (t.get("resolved") or t.get("callee") or {}).get("path", "") or ""
+                    nm = pth.rsplit("::", 1)[-1]
+                    if ("core::iter::traits::iterator::Iterator::" in pth or pth.startswith("core::iter::adapters::")) \
+                            and nm in ("filter", "filter_map", "skip", "skip_while", "take", "take_while", "map_while", "step_by", "find", "nth", "last"):
+                        dropping.append(nm)
+        ver = "0.3" if "0_3" in b["id"] else "0.2"
+        rep.ob("C19.9", "%s|mutate_options|every-value" % ver, not dropping,
+               "coap-message %s mutate_options() passes the stored values through %s: some values (e.g. zero-length ones) never reach the callback, "
+               "so the generic view differs from the raw options" % (ver, sorted(set(dropping))), {"file": b["span"]["f"], "line": b["span"]["l"], "fn": b["path"]})
     rep.floor("C19.9", "coap-message view methods checked against the raw state", n_methods, 12)
     # (payload_mut exists in the 0.2 trait only)
 
